@@ -562,6 +562,7 @@ func main() {
 		return
 	}
 	vf.Main("C27", "exploration", func(r *vf.Run) {
+		r.Watchdog("wedge")
 		r.Rule("valid BMP conversations (initiation, 1-3 peer ups with real OPEN pairs incl. 4-octet AS and add-path, route monitoring pre/post policy with IPv4/IPv6 announcements, withdrawals, End-of-RIB, statistics, route mirroring, peer down, termination; every 20th with full-size UPDATEs) and one typed mutation each of: " + strings.Join(mutClasses, ", ") +
 			"; fed frame by frame (7/8: allocation measured per frame), at once or in small chunks; ended by EOF or reset. distinct_nontrivial = distinct hostile streams (by content) whose mutated message was reached, i.e. the serve loop consumed bytes at or behind the mutation offset")
 		r.Assume("a panic recovered in the harness goroutine that runs the real serve loop is a crash of the receiver (BMPReceiver.handleConnection has no recover)",
